@@ -358,8 +358,13 @@ class Engine:
             elif kind == 'cancel_stepper':
                 # whoever runs the process gives up (e.g. asyncio.wait_for(proc.step_until_terminated(), t) timing out): the task
                 # that steps the process is cancelled, the process itself stays live and is picked up again later
-                rec.result = self.task.cancel() if not self.task.done() else 'skipped'
-                self.stepper_cancelled += 1
+                if action.get('only_if_paused') and not (proc.paused and not getattr(proc, '_stepping', False)):
+                    rec.result = 'skipped'  # (only a process that sits paused is abandoned: it can be picked up again as it is)
+                elif self.task.done():
+                    rec.result = 'skipped'
+                else:
+                    rec.result = self.task.cancel()
+                    self.stepper_cancelled += 1
             elif kind == 'restep':
                 # somebody runs the process again
                 if self.task.done() and not proc.has_terminated():
@@ -520,6 +525,10 @@ class Engine:
         proc = self.proc
         for _ in range(max_rounds):
             self.run_to_quiescence()
+            if self.stepper_cancelled and self.task.done() and not proc.has_terminated():
+                # whoever gave up stepping the process is replaced: somebody runs it again
+                self.extra_action({'act': 'restep'})
+                self.run_to_quiescence()
             if proc.has_terminated():
                 if proc.paused and self.opts.get('final_play', False):
                     # "each run is completed by a final play", also one that terminated while a pause took effect
